@@ -196,7 +196,7 @@ impl Family for Cli {
         180
     }
     fn rule(&self) -> &'static str {
-        "the goml binary built from /repo, one process per call, no Go toolchain on PATH. (a) fault placement: 11 faults (parse error, parse error after a multi-byte literal, parse error on a line of 60-90 three-byte / two-byte characters shifted by 0-2 bytes, lowering error on a line of four-byte characters, lowering error, type error, match-compilation error) x 3 places (entry file, second file of Main, file of an imported package) x 3 paddings of the faulty file x 3 paddings of the entry file (none / 40 ASCII lines / 40 lines of 2-, 3- and 4-byte characters), through `run`; oracle: exit status 1, no panic, no signal, at least one `error` line, and every `<file>.gom:L:C` printed names the file that contains the fault and a position on the fault's line inside that file. (b) the fixed multi-package projects (corpus, generated, ill-typed, not-a-DAG, many-diagnostics) through `build` per package in the first topological order and `link`: every process ends with status 0 or 1, `link` succeeds iff the library link succeeds and writes the same Go text, and a failing step fails where the library fails. (c) the 16 nesting ladders (depth <= 64 / 128) and the 12 length ladders (<= 512 / 2048; quick also runs two of them at 2048) through `run`: the process never dies of a signal (stack overflow) or panics. non-trivial = cases in which the binary reported at least one diagnostic; distinct = distinct case"
+        "the goml binary built from /repo, one process per call, no Go toolchain on PATH. (d) rebuilds: chain / diamond / triangle x 18 kinds of interface edit and a body-only edit of the leaf library: build all + link, edit, build all again in dependency order into the same directory + link: must succeed and leave the same .interface / .core files and Go text as a build of the edited sources into an empty directory. (a) fault placement: 11 faults (parse error, parse error after a multi-byte literal, parse error on a line of 60-90 three-byte / two-byte characters shifted by 0-2 bytes, lowering error on a line of four-byte characters, lowering error, type error, match-compilation error) x 3 places (entry file, second file of Main, file of an imported package) x 3 paddings of the faulty file x 3 paddings of the entry file (none / 40 ASCII lines / 40 lines of 2-, 3- and 4-byte characters), through `run`; oracle: exit status 1, no panic, no signal, at least one `error` line, and every `<file>.gom:L:C` printed names the file that contains the fault and a position on the fault's line inside that file. (b) the fixed multi-package projects (corpus, generated, ill-typed, not-a-DAG, many-diagnostics) through `build` per package in the first topological order and `link`: every process ends with status 0 or 1, `link` succeeds iff the library link succeeds and writes the same Go text, and a failing step fails where the library fails. (c) the 16 nesting ladders (depth <= 64 / 128) and the 12 length ladders (<= 512 / 2048; quick also runs two of them at 2048) through `run`: the process never dies of a signal (stack overflow) or panics. non-trivial = cases in which the binary reported at least one diagnostic; distinct = distinct case"
     }
     fn cases(&self, tier: Tier) -> Box<dyn Iterator<Item = Value> + '_> {
         let mut v = Vec::new();
@@ -212,6 +212,7 @@ impl Family for Cli {
         for i in 0..cli_projects().len() {
             v.push(json!({"kind": "project", "project": i}));
         }
+        v.extend(rebuild_cases(tier));
         let maxd = if tier == Tier::Quick { 64 } else { 128 };
         for k in crate::families::text::LADDERS {
             let mut d = 16;
@@ -239,9 +240,126 @@ impl Family for Cli {
         match case["kind"].as_str().unwrap() {
             "fault" => fault_case(case, ctx),
             "project" => project_case(case, ctx),
+            "rebuild" => rebuild_case(case, ctx),
             _ => ladder_case(case, ctx),
         }
     }
+}
+
+/// (d) rebuilding into a directory that already holds artifacts: the project is built and linked, one library is edited,
+/// every package is built again in dependency order into the same directory, and linked: that must succeed and leave
+/// the same files and the same Go text as building the edited sources into an empty directory
+fn rebuild_cases(tier: Tier) -> Vec<Value> {
+    let mut v = Vec::new();
+    for g in ["chain", "diamond", "triangle"] {
+        for k in crate::families::staleness::KINDS {
+            if k == "enum-variant-removed-used-by-b" {
+                continue;
+            }
+            for variant in [2u64, 1] {
+                if tier == Tier::Quick && (g != "chain" && !matches!(k, "fn-added" | "struct-field-retyped" | "impl-removed") || variant == 1 && k != "fn-added") {
+                    continue;
+                }
+                v.push(json!({"kind": "rebuild", "graph": g, "edit": k, "variant": variant}));
+            }
+        }
+    }
+    v
+}
+
+fn rebuild_case(case: &Value, ctx: &mut Ctx) -> Report {
+    use crate::families::staleness::{graph, lib_source, main_source};
+    let mut rep = Report::default();
+    let (gname, kind, variant) = (case["graph"].as_str().unwrap(), case["edit"].as_str().unwrap(), case["variant"].as_u64().unwrap() as u8);
+    let g = graph(gname);
+    let site = format!("rebuild;graph={};edit={};variant={}", gname, kind, if variant == 2 { "interface" } else { "body-only" });
+    rep.outcome = Some(site.clone());
+    rep.nontrivial_key = Some(site.clone());
+    // dependencies first: the graphs list a package before what it depends on
+    let order: Vec<&str> = g.iter().rev().map(|(n, _)| *n).collect();
+    let leaf = *order.first().unwrap();
+    let write = |root: &Path, leaf_variant: u8| {
+        for (name, deps) in &g {
+            let (path, src) = if *name == "Main" { (root.join("main.gom"), main_source(deps, &[])) } else { (root.join(name).join("lib.gom"), lib_source(name, deps, if *name == leaf { leaf_variant } else { 0 }, kind, false)) };
+            std::fs::create_dir_all(path.parent().unwrap()).ok();
+            // only what changes is written again
+            if std::fs::read_to_string(&path).ok().as_deref() != Some(src.as_str()) {
+                std::fs::write(&path, src).ok();
+            }
+        }
+    };
+    let replay = json!({"kind": "cli-rebuild", "graph": gname, "edit": kind, "variant": variant, "order": order});
+    // build every package in order and link; the Go text, or where it stopped
+    let build_all = |root: &Path, rep: &mut Report| -> Result<String, String> {
+        for name in &order {
+            let input = if *name == "Main" { "main.gom".to_string() } else { format!("{}/lib.gom", name) };
+            let outp = format!("out/{}", name);
+            let args = ["build", "--package", name, "--interface-path", "out", "--output", outp.as_str(), "--input", input.as_str()];
+            let o = run_cli(root, &args, 120);
+            rep.transitions += 1;
+            if o.code != Some(0) {
+                return Err(format!("goml {} ended with {:?}: {}", args.join(" "), o.code, o.stderr.chars().take(300).collect::<String>()));
+            }
+        }
+        let mut args: Vec<String> = vec!["link".into(), "--output".into(), "out/main.go".into()];
+        for name in &order {
+            args.push("--input".into());
+            args.push(format!("out/{}.core", name));
+        }
+        let a: Vec<&str> = args.iter().map(|s| s.as_str()).collect();
+        let o = run_cli(root, &a, 120);
+        rep.transitions += 1;
+        if o.code != Some(0) {
+            return Err(format!("goml {} ended with {:?}: {}", args.join(" "), o.code, o.stderr.chars().take(300).collect::<String>()));
+        }
+        std::fs::read_to_string(root.join("out/main.go")).map_err(|e| e.to_string())
+    };
+    let root = ctx.scratch.fresh_dir("cli-rebuild");
+    std::fs::create_dir_all(root.join("out")).ok();
+    write(&root, 0);
+    if let Err(e) = build_all(&root, &mut rep) {
+        rep.tag("machinery:rebuild-template-does-not-build");
+        rep.sample = Some(json!({"site": site, "error": e}));
+        return rep;
+    }
+    write(&root, variant);
+    let again = build_all(&root, &mut rep);
+    let fresh_root = ctx.scratch.fresh_dir("cli-rebuild-fresh");
+    std::fs::create_dir_all(fresh_root.join("out")).ok();
+    write(&fresh_root, variant);
+    let fresh = build_all(&fresh_root, &mut rep);
+    match (&again, &fresh) {
+        (Ok(a), Ok(f)) => {
+            if a != f {
+                for p in ["C14", "C15"] {
+                    rep.findings.push(Finding { property: p, class: "cli.rebuild-links-another-text".into(), site: site.clone(), detail: "rebuilding every package into the directory of the earlier build links a Go text that differs from building the same sources into an empty directory".into(), replay: replay.clone() });
+                }
+            }
+            for name in &order {
+                for ext in ["interface", "core"] {
+                    let (x, y) = (std::fs::read(root.join(format!("out/{}.{}", name, ext))).unwrap_or_default(), std::fs::read(fresh_root.join(format!("out/{}.{}", name, ext))).unwrap_or_default());
+                    if x != y {
+                        for p in ["C14", "C15"] {
+                            rep.findings.push(Finding { property: p, class: "cli.rebuild-leaves-another-artifact".into(), site: format!("{};artifact={}.{}", site, name, ext), detail: format!("out/{}.{} after the rebuild differs from the file a build into an empty directory writes", name, ext), replay: replay.clone() });
+                        }
+                    }
+                }
+            }
+            if rep.findings.is_empty() {
+                rep.tag("rebuild:same-as-a-fresh-build");
+            }
+        }
+        (Err(e), Ok(_)) => {
+            for p in ["C14", "C15"] {
+                rep.findings.push(Finding { property: p, class: "cli.rebuild-fails".into(), site: site.clone(), detail: format!("every package was rebuilt in dependency order into the directory of the earlier build: {}", e), replay: replay.clone() });
+            }
+        }
+        (_, Err(e)) => {
+            rep.tag("machinery:rebuild-edited-sources-do-not-build");
+            rep.sample = Some(json!({"site": site, "error": e}));
+        }
+    }
+    rep
 }
 
 fn cli_projects() -> Vec<Project> {
